@@ -92,3 +92,29 @@ Proof. split; [apply insert_pts_panic_iff | apply insert_pcr_panic_iff]. Qed.
 (* ComputeCRC is a total function on byte strings (no indexing beyond the range loop) *)
 Theorem compute_crc_total b : length (Crc.compute_crc b) = 4%nat.
 Proof. reflexivity. Qed.
+
+(* bounded memory: Data() of any decoded header is empty or a proper suffix of the input *)
+Lemma bind_ok {A B} (r : Res A) (f : A -> Res B) y : bind r f = Ok y -> exists x, r = Ok x /\ f x = Ok y.
+Proof. destruct r; cbn [bind]; try discriminate. intro H. eexists. split; [reflexivity|exact H]. Qed.
+Theorem new_pes_header_data_suffix b h : Pes.new_pes_header b = Ok h ->
+  Pes.data h = [] \/ exists k, k < len b /\ Pes.data h = dropN k b.
+Proof. unfold Pes.new_pes_header. destruct (Pes.check_length b 7); [|discriminate]. intro H.
+  repeat (apply bind_ok in H; destruct H as (? & _ & H)).
+  destruct (Pes.optional_fields_exist x2 && Pes.check_length b 9).
+  - repeat (apply bind_ok in H; destruct H as (? & ? & H)).
+    apply Ok_inj in H. subst h. cbn [Pes.data].
+    match goal with Hd : (if ?c then _ else _) = Ok ?d |- _ => destruct c eqn:C in Hd end.
+    + right. match goal with Hd : slice_from b ?k = Ok _ |- _ => exists k; split; [apply N.ltb_lt; exact C|] end.
+      match goal with Hd : slice_from b ?k = Ok _ |- _ => unfold slice_from, slice in Hd;
+        destruct ((k <=? len b) && (len b <=? len b)); [|discriminate]; apply Ok_inj in Hd; subst end.
+      unfold dropN. apply firstn_all2. rewrite skipn_length. unfold len. lia.
+    + left. match goal with Hd : Ok [] = Ok _ |- _ => apply Ok_inj in Hd; subst; reflexivity end.
+  - repeat (apply bind_ok in H; destruct H as (? & ? & H)).
+    apply Ok_inj in H. subst h. cbn [Pes.data].
+    match goal with Hd : (if ?c then _ else _) = Ok ?d |- _ => destruct c eqn:C in Hd end.
+    + right. exists 6. split; [apply N.ltb_lt; exact C|].
+      match goal with Hd : slice_from b ?k = Ok _ |- _ => unfold slice_from, slice in Hd;
+        destruct ((k <=? len b) && (len b <=? len b)); [|discriminate]; apply Ok_inj in Hd; subst end.
+      unfold dropN. apply firstn_all2. rewrite skipn_length. unfold len. lia.
+    + left. match goal with Hd : Ok [] = Ok _ |- _ => apply Ok_inj in Hd; subst; reflexivity end.
+Qed.
